@@ -28,10 +28,10 @@ def budget_s(tier):
 
 LEVELS_QUICK = [
     # (n, b, kinds, palettes, labelsets, full_ids)
-    (2, 1, cm.KINDS7, ("real", "cplx", "eq", "wide"), ("plain", "odd"), True),
-    (2, 2, cm.KINDS7, ("real", "cplx", "eq", "wide"), ("plain", "odd"), True),
+    (2, 1, cm.KINDS7, ("real", "cplx", "eq", "wide", "small"), ("plain", "odd"), True),
+    (2, 2, cm.KINDS7, ("real", "cplx", "eq", "wide", "small"), ("plain", "odd"), True),
     (2, 3, cm.KINDS7, ("real", "cplx"), ("plain", "odd"), False),
-    (3, 2, cm.KINDS7, ("real", "cplx", "eq", "wide"), ("plain", "odd"), True),
+    (3, 2, cm.KINDS7, ("real", "cplx", "eq", "wide", "small"), ("plain", "odd"), True),
     (3, 3, cm.KINDS7, ("real", "cplx"), ("plain", "odd"), False),
     (3, 3, cm.KINDS4, ("eq", "wide"), ("odd",), False),
     (3, 4, cm.KINDS4, ("real",), ("plain", "odd"), False),
@@ -39,10 +39,10 @@ LEVELS_QUICK = [
     (4, 4, cm.KINDS3, ("real",), ("odd",), False),
 ]
 LEVELS_THOROUGH = [
-    (2, 1, cm.KINDS7, ("real", "cplx", "dec"), ("plain", "odd"), True),
-    (2, 2, cm.KINDS7, ("real", "cplx", "dec"), ("plain", "odd"), True),
-    (2, 3, cm.KINDS7, ("real", "cplx", "dec"), ("plain", "odd"), True),
-    (3, 2, cm.KINDS7, ("real", "cplx", "dec"), ("plain", "odd"), True),
+    (2, 1, cm.KINDS7, ("real", "cplx", "dec", "eq", "wide", "small"), ("plain", "odd"), True),
+    (2, 2, cm.KINDS7, ("real", "cplx", "dec", "eq", "wide", "small"), ("plain", "odd"), True),
+    (2, 3, cm.KINDS7, ("real", "cplx", "dec", "small"), ("plain", "odd"), True),
+    (3, 2, cm.KINDS7, ("real", "cplx", "dec", "eq", "wide", "small"), ("plain", "odd"), True),
     (3, 3, cm.KINDS7, ("real", "cplx", "dec", "eq", "wide"), ("plain", "odd"), True),
     (3, 4, cm.KINDS7, ("real", "cplx"), ("plain", "odd"), False),
     (4, 3, cm.KINDS7, ("real", "cplx"), ("plain", "odd"), False),
